@@ -172,6 +172,13 @@ func (fr *Frame) execCall(ins ssa.Instruction, cc *ssa.CallCommon, c *blockCtx) 
 	} else if key != "" {
 		g.fail("no contract for function value %s (called in %s)", key, funcKey(fr.fn))
 	}
+	// a value of a named function type (e.g. a functional option): contract "(pkg.Type).call"
+	if n, ok := types.Unalias(cc.Value.Type()).(*types.Named); ok && n.Obj().Pkg() != nil {
+		key := "(" + n.Obj().Pkg().Path() + "." + n.Obj().Name() + ").call"
+		if fc := g.W.contracts[key]; fc != nil {
+			return fr.applyContract(fc, key, sig, args, sigParamTypes(sig), c, ins)
+		}
+	}
 	detail := ""
 	if u, ok := cc.Value.(*ssa.UnOp); ok {
 		detail = fmt.Sprintf(" [load of %s (%T) = %s]", u.X.Name(), u.X, fr.val(u.X).S)
@@ -700,6 +707,16 @@ func (fr *Frame) srcSite(ins ssa.Instruction, name string) string {
 // anchorBoth fires the clauses anchored on the engine-order name of a call site and those anchored on its
 // source-order name.
 func (fr *Frame) anchorBoth(when, site string, ins ssa.Instruction, c *blockCtx, results []Term) {
+	// Go types of the results ($rK in clauses anchored after the call), where the call instruction is known
+	fr.anchorResTypes = nil
+	if ci, ok := ins.(ssa.CallInstruction); ok && results != nil {
+		if sig := ci.Common().Signature(); sig != nil {
+			for i := 0; i < sig.Results().Len(); i++ {
+				fr.anchorResTypes = append(fr.anchorResTypes, sig.Results().At(i).Type())
+			}
+		}
+	}
+	defer func() { fr.anchorResTypes = nil }()
 	fr.anchor(when+" call "+site, c, results)
 	if i := strings.LastIndex(site, "#"); i > 0 {
 		if s2 := fr.srcSite(ins, site[:i]); s2 != "" {
@@ -734,9 +751,13 @@ func (fr *Frame) anchor(name string, c *blockCtx, results []Term) {
 		env := fr.baseEnv(c.st)
 		at := fr.curBlock
 		anchorArgs := fr.anchorArgs
+		resTypes := fr.anchorResTypes
 		env.resolve = func(n string, st2 *State) (Term, Ty, bool) {
 			if strings.HasPrefix(n, "$r") {
 				if k, err := strconv.Atoi(n[2:]); err == nil && k < len(results) {
+					if k < len(resTypes) && len(resTypes) == len(results) {
+						return results[k], goTy(resTypes[k]), true
+					}
 					return results[k], Ty{Spec: results[k].Sort}, true
 				}
 			}
